@@ -22,9 +22,15 @@ MENU = [
     ('[!k.]', 'k', None, 'implied'), ('[a=""]', 'a', '', None),
     ('[class=""]', 'class', '', None),         # an empty class mention: whether it contributes a space of its own is left open
     ('[class]', 'class', None, None),          # value-less first mention of a class: later mentions still merge into it
-    ('[Checked]', 'Checked', None, 'listed'),      # HTML attribute names are case-insensitive: still the listed boolean attribute
+    ('[Checked]', 'Checked', None, 'listed'),
+    ('[zed]', 'zed', None, 'listed-explicit'),       # boolean only under the explicit list: the two lists alternate within one process
+    ('[!m=""]', 'm', '', 'implied'),               # an implied attribute with an explicit empty value is written      # HTML attribute names are case-insensitive: still the listed boolean attribute
     ('..c3', 'class', 'c3', None),        # doubled shorthand: still a class attribute (html / xml syntaxes only, see run_shard)
 ]
+# sequences longer than three mentions continue with the mentions that take part in merging (ids, classes, the attribute `a`
+# in every value form, a boolean, an implied one); the first mention still ranges over the whole menu
+CORE_SOURCES = ['#i1', '.c1', '[a=v1]', '[a="q v"]', '[a]', '.c2', '#i2', "[a='s']", '[g.]', '[!d]', '[e={x}]', '[class=k]',
+                '[class]', '[class=""]', '[disabled]', '[a=""]']
 OPTION_SPACE = {
     'output.attributeQuotes': ['double', 'single'],
     'output.attributeCase': ['', 'upper', 'lower'],
@@ -35,7 +41,7 @@ OPTION_SPACE = {
 }
 SYNTAXES = ['html', 'xml', 'jsx', 'vue']
 NAME_MAP = {'jsx': {'class': 'className', 'for': 'htmlFor'}}
-BOOL_LIST = ['disabled', 'checked']
+BOOL_LIST = ['disabled', 'checked', 'zed']
 
 BOUNDS = {
     # (k, deviations, syntaxes, boolean-list variants)
@@ -57,7 +63,7 @@ HOSTS = [
 def describe(tier):
     b = BOUNDS[tier]
     return dict(
-        rule='E2xE4: element x with every sequence of <= k mentions from a %d-entry menu (flagged names at most once), adjacent '
+        rule='E2xE4: element x with every sequence of <= k mentions from a %d-entry menu (from the fourth mention on: the 16 merge-relevant entries; flagged names at most once), adjacent '
              'bracket mentions sharing a bracket or not, under all option sets with <= d deviations over %s, syntaxes and '
              'boolean-list variants (explicit [disabled, checked] / library default): (k, d, syntaxes, explicit-list) in %s. '
              'Payload sweep E1: all payloads of <= %d units from %d units in hosts x[a=P], x[a="P"], x[a=\'P\'], x[a={P}] (units '
@@ -126,7 +132,9 @@ def reference(ms, opts, syntax, explicit_list):
             out = out.lower()
         if flag == 'implied' and val is None:
             continue
-        if flag in ('bool', 'listed') and val is None:
+        if flag == 'listed-explicit' and not explicit_list:
+            flag = None
+        if flag in ('bool', 'listed', 'listed-explicit') and val is None:
             if opts.get('output.compactBoolean'):
                 if style != 'html':
                     # XML-style output: a bare attribute is not well-formed there; which value is written is left open
@@ -226,8 +234,9 @@ def run_shard(shard, ctx, tier):
     first = MENU[shard['first']]
     osets = option_sets(d)
     s = None
+    core = [m for m in MENU if m[0] in CORE_SOURCES]
     for n in range(1, k + 1):
-        for rest in itertools.product(MENU, repeat=n - 1):
+        for rest in itertools.product(MENU if n <= 3 else core, repeat=n - 1):
             ms = (first,) + rest
             names = [m[1] for m in ms]
             if any(m[3] and names.count(m[1]) > 1 for m in ms):
